@@ -364,7 +364,9 @@ theorem cost_checkRanges (n : Nat) (l : List (Nat × Nat)) (t : Nat) : CostLe (c
     · exact costLe_mono (costLe_fail _) (Nat.zero_le _)
     · split
       · exact costLe_mono (costLe_fail _) (Nat.zero_le _)
-      · exact ih _
+      · split
+        · exact costLe_mono (costLe_fail _) (Nat.zero_le _)
+        · exact ih _
 
 def nEntries (P : Parsers Cert Roots Time) (table : Bytes) : Nat := ((P.certTableHeader table).map (·.length)).getD 0
 
@@ -816,19 +818,21 @@ theorem C07_dec_checkRanges_sound (n : Nat) (l : List (Nat × Nat)) (t : Nat) (h
     simp only [checkRanges, bind_def, M.bind, tick] at h
     by_cases h1 : off + len > n
     · simp [h1, fail] at h
-    · by_cases h2 : t + len > n
-      · simp [h1, h2, fail] at h
-      · simp only [h1, h2, ↓reduceIte] at h
-        have h' : (checkRanges n (t + len) rest).out = .ok () := by
-          revert h; cases hc : (checkRanges n (t + len) rest).out <;> simp
-        obtain ⟨ha, hb⟩ := ih (t + len) (by omega) h'
-        refine ⟨?_, ?_⟩
-        · intro e he
-          simp only [List.mem_cons] at he
-          rcases he with rfl | he
-          · simp only; omega
-          · exact ha e he
-        · simp only [List.map_cons, List.sum_cons]; omega
+    · by_cases h3 : off + len > 4294967295
+      · simp [h1, h3, fail] at h
+      · by_cases h2 : t + len > n
+        · simp [h1, h2, h3, fail] at h
+        · simp only [h1, h2, h3, ↓reduceIte] at h
+          have h' : (checkRanges n (t + len) rest).out = .ok () := by
+            revert h; cases hc : (checkRanges n (t + len) rest).out <;> simp
+          obtain ⟨ha, hb⟩ := ih (t + len) (by omega) h'
+          refine ⟨?_, ?_⟩
+          · intro e he
+            simp only [List.mem_cons] at he
+            rcases he with rfl | he
+            · simp only; omega
+            · exact ha e he
+          · simp only [List.map_cons, List.sum_cons]; omega
 
 /-- If extractsev.CheckCertTable accepts a table, every header entry's byte range lies inside the table
     and the ranges together are no longer than the table — so go-sev-guest's CertTable.Unmarshal, which
